@@ -1,3 +1,5 @@
+import struct
+
 from construct.core import ConstructError
 from construct.core import Subconstruct
 from construct.core import Switch
@@ -40,7 +42,9 @@ class FileAdapter(Subconstruct):
                 stream, 
                 **context
             )
-        except (RequestedInvalidSector, InvalidCharacter) as e:
+        except (RequestedInvalidSector, InvalidCharacter, struct.error) as e:
+            # struct.error: compiled structs unpack a short read (file 
+            # shorter than its header) without construct's length check
             raise ConstructError from e
 
         return file
